@@ -1,6 +1,6 @@
 \* spec mutation "hashNoTmpl": TLC must reject it (vacuity guard)
-CONSTANTS Claims = {"c1"}  AtomIds = {1, 6, 10}  Types = {"small", "large"}  Zones = {"zone-a", "zone-b"}  CTs = {"spot"}
-          MaxLen = 40  MaxEdits = 3  MaxAtoms = 1  Wk = "hashNoTmpl"
+CONSTANTS Claims = {"c1"}  AtomIds = {6, 10, 18}  Types = {"small", "large"}  Zones = {"zone-a", "zone-b"}  CTs = {"spot"}
+          MaxLen = 40  MaxEdits = 2  MaxAtoms = 1  Wk = "hashNoTmpl"
 SPECIFICATION Spec
 VIEW view
 INVARIANTS TypeOK Inv_C15_NoSelfDrift
